@@ -81,6 +81,33 @@ def own_checkpoints(ctx, res):
                                                "table's) is accepted by a node whose head is at height %d" % j})
                     if kind == "checkpointed" and v != "ok":
                         res.violations.append({**info, "kind": "the block with the checkpoint's id is refused"})
+        # a node that has no block at all yet (validating a chain from scratch): the table's block 0, another genesis, and
+        # parentless competitors at the checkpointed heights
+        name = "o%d_empty" % si
+        ops.append("new " + name)
+        impl.append("ok")
+        alt = chain.custom_genesis(keys, timestamp=main[0].timestamp + 1 + si)
+        offers = [("competitor", 0, alt)] + [("competitor", h, comps[h]) for h in cps] + [("checkpointed", 0, main[0])]
+        for kind, h, blk in offers:
+            st = CoinState.empty()
+            now = blk.timestamp + 200
+            try:
+                st.add_block(blk, now)
+                v = "ok"
+            except Exception:
+                v = "rej"
+            if kind == "competitor":        # (the accepted block 0 comes last: the model's state stays empty until then)
+                ops.append("add x %s %s %d" % (name, hx(blk.serialize()), now))
+                impl.append(v)
+            res.case(("own-empty", si, h, kind))
+            res.count("own_table:%s:no_block_yet" % kind)
+            info = {"scenario": si, "head_height": None, "height": h, "horizon": horizon, "table": known,
+                    "block": blk.serialize().hex(), "chain": []}
+            if kind == "competitor" and v == "ok":
+                res.violations.append({**info, "kind": "a competing block at a checkpointed height (another id than the "
+                                       "table's) is accepted by a node that has no block yet"})
+            if kind == "checkpointed" and v != "ok":
+                res.violations.append({**info, "kind": "the block with the checkpoint's id is refused by a node that has no block yet"})
         model = ctx.driver.ask(ops)
         model = [m.split(" ")[0] if m.startswith("rej") else m for m in model]
         kit.compare(res, ops, impl, model)
